@@ -619,8 +619,9 @@ func (eval Evaluator) ScaleDown(ctIn *rlwe.Ciphertext) (*rlwe.Ciphertext, *rlwe.
 
 	r := params.RingQ()
 
-	// Removes unecessary primes
-	for ctIn.Level() != 0 && checkMessageRatio(ctIn, eval.Mod1Parameters.MessageRatio(), r) {
+	// Removes unecessary primes. One level is kept when there is one: at level zero the scale can only be matched by an
+	// integer multiplication (exact for power-of-two scales only), the rescaling by Q[1] below matches any scale.
+	for ctIn.Level() > 1 && checkMessageRatio(ctIn, eval.Mod1Parameters.MessageRatio(), r) {
 		ctIn.Resize(ctIn.Degree(), ctIn.Level()-1)
 	}
 
